@@ -285,7 +285,8 @@ Lemma constrain_scalar f inner t ty e1 : scalar_rty ty <> None ->
   else lit_kind (inner_of e1) = false.
 Proof.
   intros Hs H. destruct ty; try (exfalso; apply Hs; reflexivity).
-  all: destruct inner; cbn [constrain_type inner_of ty_of lit_kind] in H |- *;
+  all: destruct inner; try (match goal with |- context [lit_kind (TRange _ _ ?u)] => destruct u end);
+       cbn [constrain_type inner_of ty_of lit_kind] in H |- *;
        try (apply cbind_ok in H; destruct H as (e0 & E0 & H); injection H as <-; exists e0; split; [exact E0|reflexivity]).
   all: inv_do H; try (injection H as <-; reflexivity).
   all: repeat match goal with
@@ -488,13 +489,15 @@ Module LitExamples.
   (* ---- FINDINGS: `Literal::parse` accepts, `is_of_type` rejects (parse_arg refuses both texts,
      because lib.rs re-tests the parsed literal) *)
 
-  (* 1. a range without a type suffix: the typed tree gets the type [u8; 3] (constrain_type only
-     overwrites the TYPE of the range expression), the node keeps `Unspecified`, and into_literal
-     returns Range(2, 5, Unspecified): as_bits would encode three 32-bit elements *)
-  Example finding_unsuffixed_range :
-    lit 4 "2..5" = COk (LL.LRange 2 5 LT.UUnspec) /\ arg 4 "2..5" = CErr E_InvalidLiteralType /\
-    lit 9 "2..5" = COk (LL.LRange 2 5 LT.UUnspec) /\ arg 9 "2..5" = CErr E_InvalidLiteralType /\
-    lit 7 "[0..2, 0..2]" = COk (LL.LArray (ls [LL.LRange 0 2 LT.UUnspec; LL.LRange 0 2 LT.UUnspec])).
+  (* 1. a range without a type suffix: REPAIRED in the code (fix 7bf4e4f, mirrored in Infer.v constrain_type):
+     the range takes the element type of the array type it is parsed at, so parse_arg accepts it
+     with the typed literal; at a signed element type it is refused.  Before the repair the node kept
+     `Unspecified` (into_literal returned Range(2, 5, Unspecified), which is_of_type rejects and
+     as_bits would have encoded as three 32-bit elements) and `[i8; 3]` was accepted as well. *)
+  Example unsuffixed_range_after_fix :
+    lit 4 "2..5" = COk (LL.LRange 2 5 LT.U8) /\ arg 4 "2..5" = COk (LL.LRange 2 5 LT.U8) /\
+    lit 9 "2..5" = CErr E_UnexpectedType /\ arg 9 "2..5" = CErr E_UnexpectedType /\
+    lit 4 "254..257" = CErr E_UnexpectedType.
   Proof. repeat split; vm_compute; reflexivity. Qed.
 
   (* 2. a range that leaves its element type: 0u8..257 has the type [u8; 257], its last element
@@ -504,16 +507,7 @@ Module LitExamples.
   Proof. split; vm_compute; reflexivity. Qed.
 End LitExamples.
 
-(* the two findings as refutations of the contract for `Literal::parse` *)
-Theorem parse_unsuffixed_range_refuted :
-  exists intern D ty text l r,
-    literal_parse intern D ty text = COk l /\ rty_of_cty intern D 5 ty = Some r /\ LL.is_of_type l r = false.
-Proof.
-  exists LitExamples.ex_intern, (mkDefs [] [] [] [] [] []), (CArray (CUnsigned U8) 3), (codes "2..5"),
-         (LL.LRange 2 5 LT.UUnspec), (LT.RArray (LT.RUnsigned LT.U8) 3).
-  split; [vm_compute; reflexivity|]. split; vm_compute; reflexivity.
-Qed.
-
+(* the remaining finding as a refutation of the contract for `Literal::parse` alone (the unsuffixed-range one was repaired: fix 7bf4e4f) *)
 Theorem parse_range_overflow_refuted :
   exists intern D ty text l r,
     literal_parse intern D ty text = COk l /\ rty_of_cty intern D 5 ty = Some r /\ LL.is_of_type l r = false.
@@ -528,5 +522,4 @@ Print Assumptions literal_parse_program_of_type.
 Print Assumptions P2_unsigned.
 Print Assumptions P2_signed_of_unsigned_token.
 Print Assumptions P2_signed.
-Print Assumptions parse_unsuffixed_range_refuted.
 Print Assumptions parse_range_overflow_refuted.
